@@ -197,9 +197,12 @@ CLAIMED["C08"] = {
     "engine": "spawn", "design_ref": "DESIGN.md section 6, C08",
     "technique": "Lean 4 proof (close-on-exec marking invariant) + trace conformance with the child's full descriptor table at exec",
     "text": "c08_parent_ends_cloexec (at the fork the parent end of every stream pipe has had FD_CLOEXEC set successfully), status_marked, "
-            "c08_parent_releases_child_ends, c08_released_before_status_read, c08_child_closes_status_read; single spawning thread. On the real code the child's whole "
+            "c08_parent_releases_child_ends, c08_released_before_status_read, c08_child_closes_status_read, c08_child_ends_in_exec_or_exit (the forked child's call "
+            "sequence ends in a started exec or in _exit(127), for every list of OS answers: it never returns into the caller); single "
+            "spawning thread. On the real code the child's whole "
             "descriptor table at exec must contain nothing but 0,1,2 without close-on-exec, with 0 or 3 other live Popens, also for a "
-            "caller whose own descriptors 0-2 are (partly) closed.",
+            "caller whose own descriptors 0-2 are (partly) closed; launches whose child fails at each of its own steps while other "
+            "Popens are alive must end the child (a forked child that returns from Popen::create is recorded and ended by the harness).",
     "note": SPAWN_NOTE + " Known finding C08 concurrent-spawn-window: for spawns from several threads the property does not hold "
             "(pipe ends are inheritable between pipe() and fcntl(), child ends until the launch's own fork is over); the check "
             "reproduces every such point deterministically (an unrelated launch run right after the k-th pipe()) and prints "
